@@ -292,6 +292,7 @@ def run(ctx):
     _unset_string_default(ctx, repo)
     _operand_order(ctx, repo)
     _complete_scan(ctx, repo)
+    _positional_sequences(ctx, repo)
     shared.module_state_rule(ctx, 'C16.i', ['cirq-google/cirq_google/api/', 'cirq-google/cirq_google/serialization/', 'cirq-google/cirq_google/study/', 'cirq-google/cirq_google/devices/'], floor=3)
     ctx.decided.append('C16.i converters keep no state between calls: module-level containers of the serialization packages are never written from inside a function')
 
@@ -1479,3 +1480,26 @@ def _complete_scan(ctx, repo):
                                'non-numeric element behind a float is written into a numeric field (or raises) instead of taking the generic encoding', m.rel, b.lineno)
     if n == 0:
         raise AnalysisError('C16.p: no flag-recording scan loop found in arg_func_langs')
+
+
+def _positional_sequences(ctx, repo):
+    """C16.q - a sequence attribute of a gate is written element by element: positions are meaningful (neighbour 0 / neighbour 1), so nothing is filtered out."""
+    ctx.decided.append('C16.q writer: comprehensions over a sequence attribute of the gate being serialized have no filter (dropping a None entry shifts the remaining entries to other positions)')
+    ctx.rule('C16.q', 'positional sequences: in CircuitSerializer._serialize_gate_op every comprehension / generator whose iterable is an attribute of the gate has no `if` clause', floor=2, style='WR')
+    ci = repo.cls('cirq_google.serialization.circuit_serializer.CircuitSerializer')
+    fn = repo.method(ci.qual, '_serialize_gate_op')
+    gate_names = {a.targets[0].id for a in ast.walk(fn) if isinstance(a, ast.Assign) and len(a.targets) == 1 and isinstance(a.targets[0], ast.Name)
+                  and isinstance(a.value, ast.Attribute) and a.value.attr == 'gate'}
+    n = 0
+    for c in ast.walk(fn):
+        if not isinstance(c, (ast.ListComp, ast.GeneratorExp, ast.SetComp)):
+            continue
+        g = c.generators[0]
+        if not (isinstance(g.iter, ast.Attribute) and isinstance(g.iter.value, ast.Name) and g.iter.value.id in gate_names):
+            continue
+        n += 1
+        ok = not g.ifs
+        ctx.ob('C16.q', f'{ci.qual}._serialize_gate_op:{g.iter.attr}#{n}', ok, '' if ok else
+               f'`{ast.unparse(c)[:80]}` skips entries of {ast.unparse(g.iter)}: the reader assigns what is left by position, so (None, f) comes back as (f,) or (f, None)', ci.mod.rel, c.lineno)
+    if n == 0:
+        raise AnalysisError('C16.q: no comprehension over a gate attribute in _serialize_gate_op')
